@@ -200,6 +200,8 @@ def cmd_check(prop, tier, runs=None, wall=None):
     def is_known(vrec):
         return all(match_known(x, known) for x in vrec["violations"] if x["property"] == prop)
 
+    if tier == "thorough":
+        os.environ["VERIF_DEEP"] = "1"         # inherited by the forked workers and the determinism child
     if tier == "quick":
         n_runs = runs or int(os.environ.get("VERIF_RUNS", QUICK_RUNS[prop]))
         agg = batch.run_batch(world, prop, batch_seed, n_runs=n_runs, is_known=is_known)
